@@ -1085,6 +1085,18 @@ def sec_xml(cx):
         chk.count(("xmlop", json.dumps(e), ap), nontrivial=True)
         if got != want:
             cx.viol("xmlop", {"elem": e, "attr_prefix": ap, "content_name": cn, "want": want, "got": got}, "to_xml | from_xml is not the identity on an element-tree document")
+    # ---------- probe: one text delivered as several character data tokens (CDATA section / comment inside the text) ----------
+    for t, want in (("<a>t<![CDATA[<x>]]>u</a>", {"a": "t<x>u"}), ("<a>x<!-- c -->y</a>", {"a": "xy"})):
+        r = vlib.yqh_batch([{"op": "c14_dec", "fmt": "xml", "text_b64": vlib.b64e(t)}])[0]
+        got = from_node(r["node"]) if ok(r) else None
+        chk.count(("xmlsplit", t), nontrivial=True)
+        if got != want:
+            if isinstance(got, dict) and isinstance(got.get("a"), list) and "".join(got["a"]) == want["a"]:
+                chk.known_finding("xml-chardata-split", "text %r" % t)
+                if chk.is_known("xml-chardata-split"):
+                    continue
+            cx.viol("xmldec", {"text": t, "text_b64": vlib.b64e(t), "elem": None, "attr_prefix": "+@", "content_name": "+content", "want": want, "got": got},
+                    "yq's xml decoder does not build the document the XML text denotes")
     # ---------- probe: character data with surrounding white space (recorded limit of the decoder) ----------
     probes = [" x ", "x ", "\tx", "x\n"]
     resp = vlib.yqh_parallel([{"op": "c14_op", "expr": "to_xml | from_xml", "node": M([("a", S(v))])} for v in probes])
@@ -1395,7 +1407,10 @@ def gen_toml_value(rng, depth=0, allow_local=False):
     if r < 0.8:
         return "[" + ", ".join(gen_toml_value(rng, depth + 1, allow_local) for _ in range(rng.randrange(0, 4))) + "]"
     ks = rng.sample(TOML_KEYS, rng.randrange(0, 3))
-    return "{" + ", ".join("%s = %s" % (toml_key(k), gen_toml_value(rng, depth + 1, allow_local)) for k in ks) + "}"
+    items = ["%s = %s" % (toml_key(k), gen_toml_value(rng, depth + 1, allow_local)) for k in ks]
+    if rng.random() < 0.3:      # dotted keys that share a prefix inside the inline table
+        items += ["dk.%s = %s" % (sub, gen_toml_scalar(rng, allow_local)) for sub in rng.sample(["p", "q", "r.s", "r.t"], rng.randrange(1, 4))]
+    return "{" + ", ".join(items) + "}"
 
 
 def gen_toml_doc(rng, allow_local=False):
@@ -1493,7 +1508,7 @@ def sec_toml(cx):
     texts = [gen_toml_doc(rng) for _ in range(cx.n(400, 8000))]
     texts += ['a = 1\nb = "x"\n[t]\nc = true\n[[arr]]\nn = 1\n[[arr]]\nn = 2\n', 'p = { x = 1, y = { z = "w" } }\nq = [1, 2.5, "s", [true]]\n', "a.b.c = 1\na.b.d = 2\n",
               '[a]\nx = 1\n[a.b]\ny = 2\n[c]\n', '[[a]]\nx = 1\n[a.b]\ny = 2\n', '[[a]]\nn = 1\n[[a.b]]\nx = 1\n[[a.b]]\nx = 2\n[[a]]\nn = 2\n', '[[a]]\n[[a]]\nx = 1\n',
-              'a = 0b1101\n', '[a]\nb.c = 1\nb.d = 2\n', '[a.b.c]\nx = 1\n[a]\ny = 2\n', 'a = [ {x = 1}, {x = 2} ]\n', "s = " + SQ3 + "\nl1\nl2" + SQ3 + "\n"]
+              'a = 0b1101\n', 'x = {a.b = 1, a.c = 2, d = {e.f = "s", e.g = [1]}}\n', '[a]\nb.c = 1\nb.d = 2\n', '[a.b.c]\nx = 1\n[a]\ny = 2\n', 'a = [ {x = 1}, {x = 2} ]\n', "s = " + SQ3 + "\nl1\nl2" + SQ3 + "\n"]
     local = [gen_toml_doc(rng, True) for _ in range(cx.n(60, 600))] + ["d = 1979-05-27\n", "t = 07:32:00\n", "dt = 1979-05-27T07:32:00\n"]
     allt = [(t, False) for t in texts] + [(t, True) for t in local]
     resp = vlib.yqh_parallel([{"op": "c14_dec", "fmt": "toml", "text_b64": vlib.b64e(t)} for t, _ in allt])
@@ -1531,6 +1546,79 @@ def sec_toml(cx):
         if not good:
             cx.viol("tomlenc", {"node": n, "response": r}, "toml encoder: a scalar must print as its text, a collection must be rejected")
     cx.dist["toml"] = {"documents": len(allt), "rejected_by_tomllib": nbad}
+
+
+# --------------------------------------------------------------------------
+# TOML, model on expressions: Model/Toml.v (the decoder's control flow, DeeplyAssign / arrayAppend on TOML-shaped documents)
+# against the implementation, with go-toml's unstable parser itself (harness op c14_tomlexpr, no yqlib) as the front end
+# --------------------------------------------------------------------------
+TOML_IMPORTS = "From YQ Require Import Base.Str Model.Toml."
+TKIND = {"String": "KString", "Bool": "KBool", "Integer": "KInteger", "Float": "KFloat", "DateTime": "KDateTime",
+         "LocalDate": "KLocalDate", "LocalTime": "KLocalTime", "LocalDateTime": "KLocalDateTime"}
+
+
+def coq_path(p):
+    return "[" + ";".join(vlib.coq_str(vlib.b64d(x)) for x in p) + "]"
+
+
+def coq_tval(v):
+    if v["k"] == "Array":
+        return "TVArray [" + ";".join(coq_tval(c) for c in v["c"]) + "]"
+    if v["k"] == "InlineTable":
+        return "TVInline [" + ";".join("(%s, %s)" % (coq_path(c["path"]), coq_tval(c["v"])) for c in v["c"]) + "]"
+    return "TVScalar %s %s" % (TKIND[v["k"]], vlib.coq_str(vlib.b64d(v["v"])))
+
+
+def coq_texpr(e):
+    if e["k"] == "kv":
+        return "EKeyVal %s (%s)" % (coq_path(e["path"]), coq_tval(e["v"]))
+    return ("ETable " if e["k"] == "table" else "EArrayTable ") + coq_path(e["path"])
+
+
+def ser_tdump(d):
+    tags = {"!!str": b"s", "!!bool": b"b", "!!int": b"i", "!!float": b"f", "": b"n"}
+    if d["k"] == "s":
+        return tags.get(d["t"], b"?") + sval(d) + b"\0"
+    if d["k"] == "q":
+        return b"[" + b"".join(ser_tdump(c) for c in d["c"]) + b"]"
+    out = b"{"
+    for i in range(0, len(d["c"]), 2):
+        out += sval(d["c"][i]) + b"\0" + ser_tdump(d["c"][i + 1])
+    return out + b"}"
+
+
+@section
+def sec_toml_model(cx):
+    chk, rng = cx.chk, cx.rng
+    texts = [gen_toml_doc(rng, rng.random() < 0.1) for _ in range(cx.n(300, 6000))]
+    texts += ['a = 1\nb = "x"\n[t]\nc = true\n[[arr]]\nn = 1\n[[arr]]\nn = 2\n', "[t]\n[u]\nx = 1\n", "[[a]]\n[[a]]\nx = 1\n", "[[a]]\nx = 1\n[[a]]\n", "[[a]]\nx = 1\n[a.b]\ny = 2\n",
+              "[a.b.c]\nx = 1\n[a]\ny = 2\n", "x = {a.b = 1, a.c = 2}\n", "a = 0b1_01\n", "[a]\nb.c = 1\nb.d = 2\n[a.e]\nf = [1, [2, {g = 3}]]\n", "", "# only a comment\n", "[t]\n",
+              "a.b = 1\n[a]\nc = 2\n", "d = 1979-05-27\n", "[x.y]\n[x]\nz = 1\n[[x.w]]\nq = 1\n[[x.w]]\n"]
+    ereq = vlib.yqh_parallel([{"op": "c14_tomlexpr", "text_b64": vlib.b64e(t)} for t in texts])
+    dreq = vlib.yqh_parallel([{"op": "c14_dec", "fmt": "toml", "text_b64": vlib.b64e(t)} for t in texts])
+    cases, inputs = [], []
+    for t, er, dr in zip(texts, ereq, dreq):
+        rp = {"text": t, "text_b64": vlib.b64e(t)}
+        chk.count(("tomlmodel", t), nontrivial="[" in t)
+        if dr is None or dr.get("panic") or dr.get("timeout") or dr.get("crash") or dr.get("harness_error"):
+            cx.viol("tomldec", dict(rp, response=dr), "toml decoder crashed")
+            continue
+        if er is None or er.get("err") or "\0" in t:
+            continue           # the parser rejects the text: library side
+        try:
+            tomllib.loads(t)
+        except Exception:
+            continue           # not a TOML document (the unstable parser checks syntax only): outside the domain of the model
+        if ok(dr) and dr.get("node"):
+            obs = b"O" + ser_tdump(dr["node"])
+        elif dr.get("errclass") == "eof":
+            obs = b"N"
+        else:
+            obs = b"E"
+        cases.append(("[" + ";".join(coq_texpr(e) for e in er["exprs"]) + "]", obs))
+        inputs.append(rp)
+    cx.correspond("tomldecode", TOML_IMPORTS, "toml_decode_obs", cases, inputs, "Model/Toml.v toml_decode vs decoder_toml.go (expressions from go-toml's unstable parser)")
+    cx.dist["toml_model"] = {"documents": len(texts)}
 
 
 # --------------------------------------------------------------------------
@@ -2518,8 +2606,9 @@ TRUSTED = [
     "Go's stream base64 decoder works in blocks of the buffered text; the model follows the block structure for one read (texts below 680 characters); "
     "longer malformed texts with interior pad characters are outside the model",
     "library contracts, tested not proved: encoding/xml tokenizer and escaper, go-toml/v2 unstable parser, gopher-lua VM, "
-    "the YAML snippet parser that re-types CSV / properties scalars, utfbom for UTF-16/32 marks",
+    "the YAML snippet parser that re-types CSV / properties scalars, utfbom for UTF-16/32 marks, trimNonGraphic's unicode tables (ASCII trimming in the XML model runs)",
     "modelled, not verified: the CSV separator is one byte below 128; properties comments, UnwrapScalar=false quoting and unicode literals above U+FFFF are not modelled",
 ]
 ASSUMPTIONS = ["correspondence is sampled; the unbounded claims are the Coq theorems over the models",
-               "XML, TOML and the Lua decoder have no Coq model: for them the result rests on the differential tests against independent readers only"]
+               "XML and TOML are modelled above the library tokenizer / parser (token and expression streams come from encoding/xml and go-toml themselves); "
+               "the Lua decoder has no Coq model: for it the result rests on the differential tests against independent readers only"]
